@@ -95,10 +95,10 @@ CHECKS = {
    text="Every public BitSeq operation is executed once from an arbitrary valid state (all 2^64 values x all 65 lengths, symbolic arguments) and compared with the list-of-bits specification; out-of-capacity/out-of-range calls must not return. The SAT solver decides each harness for all inputs; unwinding assertions on (unwind 66-68 covers the 64-step loops). One inductive step from any valid state covers operation histories of any length because validity of the result is asserted.",
    note="Trusted: Kani 0.68 MIR->goto translation, CBMC 6.11, cadical. Ord harness replaces BitSeq::weight by popcount (stub), justified by c17_weight at full width; an unstubbed twin covers len <= 12. FromStr/Display and generate(len>3) are outside (string formatting / 2^len loop). Rejection = any panic (assert or overflow check, as in both repo profiles).",
    design="5/C17"),
- "C18": dict(engine="K", category="model_checking",
+ "C18": dict(engine="K+S", category="model_checking",
    technique="bounded model checking of the compiled Rust (Kani/CBMC, SAT) of the per-crossing kernel: Crossing::{pass,resolve,resolved,mirror,arcs,is_resolved} with symbolic type and edges, braid Generator",
    text="PER-CROSSING KERNEL ONLY: pass is a fixed-point-free involution matching the strand picture of each type; resolution table; mirror is an involution preserving edges and pass.",
-   note="NOT decided: components, crossing signs, writhe, circle counts, Seifert circles, braid closure - they walk the diagram through HashSet/HashMap (not executable in Kani within reach, no scalar for the concolic engine). Those routines are exercised indirectly by the Kh checks (C01/C02 compare against an independent orientation walk and circle count on catalogue diagrams).",
+   note="NOT solver-decided: components, crossing signs, writhe, circle counts, Seifert circles, braid closure - they walk the diagram through HashSet/HashMap (not executable in Kani within reach, no scalar for the concolic engine). As an AUXILIARY, concrete part the S runner compares them on the catalogue diagrams, renumbered / rotated copies, all resolution states, partial resolutions and ten braid words against an independent reference (strand-relation union-find, orientation walk with all admissible orientations of over-only components, circle counts, permutation cycles); these comparisons involve no symbolic variable and are labelled 'linkfacts' in the evidence.",
    design="5/C18"),
 }
 
